@@ -38,7 +38,10 @@ def rule_formula(ctx, rule="C12-formula"):
     ctx.ob(rule, AG, "normal-form", ok, how="amortized_growth(len, add) = max(len + len/2, len + add), saturating: %s" % d,
            detail="growth rule is `%s`: not max(len*3/2, len+additional) — the property pins the new capacity to >= len + len/2 and <= max(that, required)" % d)
     # overflow-checked multiplications would panic instead of saturating: no Assert terminators
-    asserts = [bb for bb in range(b.n) if b.term(bb)["k"] == "assert" and b.term(bb)["msg_kind"].startswith("overflow")]
+    from facts import static_int
+    # (the range check of a shift by a literal amount is decided at compile time: not a panic path)
+    asserts = [bb for bb in range(b.n) if b.term(bb)["k"] == "assert" and b.term(bb)["msg_kind"].startswith("overflow")
+               and not (b.term(bb)["msg_kind"] in ("overflow:Shr", "overflow:Shl") and static_int(b, b.origin_operand(b.term(bb)["cond"])) is not None)]
     ctx.ob(rule, AG, "no-overflow-panic", not asserts, how="no overflow-checked arithmetic (saturating ops only)", detail="amortized_growth uses overflow-checked arithmetic: huge sizes panic instead of being rejected")
 
 
@@ -73,7 +76,7 @@ def rule_sites(ctx, rule="C12-sites"):
             if nme == "repr::heap_buffer::HeapBuffer::with_additional":
                 n += 1
                 a = [st.desc(0), st.desc(1)]
-                ok = a[0] in ("repr::heap_buffer::HeapBuffer::as_str(repr::Repr::as_heap_buffer_mut(p1))", "repr::Repr::as_str(p1)", "repr::heap_buffer::HeapBuffer::as_str(repr::Repr::as_heap_buffer(p1))") and a[1] == "p2"
+                ok = a[0] in ("repr::heap_buffer::HeapBuffer::as_str(p1)", "repr::heap_buffer::HeapBuffer::as_str(repr::Repr::as_heap_buffer_mut(p1))", "repr::Repr::as_str(p1)", "repr::heap_buffer::HeapBuffer::as_str(repr::Repr::as_heap_buffer(p1))") and a[1] == "p2"
                 ctx.ob(rule, r.path, "copy-growth-operands:" + st.label(), ok, line=st.line, how="with_additional(self's text, additional)", detail="growing copy made with_additional(%s)" % ", ".join(a))
             if nme in ("repr::heap_buffer::HeapBuffer::new", "repr::heap_buffer::HeapBuffer::with_capacity", "repr::heap_buffer::HeapBuffer::with_exact_capacity"):
                 ctx.ob(rule, r.path, "exact-fit-in-reserve:" + st.label(), False, line=st.line, detail="reserve grows through %s (exact fit): n pushes cost O(n) reallocations" % nme)
